@@ -3,7 +3,7 @@
    The signature table is a JSON array of [public key text, server, key id] triples for which
    VerifyJSON succeeds on the invite's signed object (computed by the harness with real keys);
    it instantiates the sig_ok oracle of Auth/Abs.v. *)
-From Verif Require Import Lib.Bytes Json.Ast Json.Parse Auth.Types Auth.Versions Auth.Abs Auth.Decide Auth.Model Auth.AllowedSpec.
+From Verif Require Import Lib.Bytes Json.Ast Json.Parse Auth.Types Auth.Versions Auth.Abs Auth.Decide Auth.Model Auth.AllowedSpec Auth.Departures.
 Open Scope N_scope.
 
 Definition sig_table (j : json) : list (bytes * bytes * bytes) :=
@@ -69,6 +69,74 @@ Definition prop_allowed (args : list bytes) : bytes :=
 Definition run_allowed_nilq (args : list bytes) : bytes :=
   with_case args (fun so ver e al => verdict_bytes (allowed_model_nilq so ver e al)) (bs "badargs").
 
+(* ---------- the literal text of the specification and the 13 departures ---------- *)
+Definition dep_label (k : N) : bytes :=
+  if k =? 1 then bs "01" else if k =? 2 then bs "02" else if k =? 3 then bs "03"
+  else if k =? 4 then bs "04" else if k =? 5 then bs "05" else if k =? 6 then bs "06"
+  else if k =? 7 then bs "07" else if k =? 8 then bs "08" else if k =? 9 then bs "09"
+  else if k =? 10 then bs "10" else if k =? 11 then bs "11" else if k =? 12 then bs "12"
+  else if k =? 13 then bs "13" else bs "??".
+
+Fixpoint join_nums (l : list N) : bytes :=
+  match l with
+  | [] => []
+  | [k] => dep_label k
+  | k :: r => dep_label k ++ [44] ++ join_nums r
+  end.
+
+(* which departures explain the difference between the library's verdict and the literal text:
+   same | dep:<numbers of the departures that decide the verdict alone> |
+   joint:<numbers of the departures whose condition holds> | finding | unexplained *)
+Definition literal_class (sv : spec_rules) (a : auth_input) (x : Departures.spec_extra) (got : bool) : bytes :=
+  let lit := decide_spec_with all_off sv a x in
+  let rules := decide_spec_with all_on sv a x in
+  if Bool.eqb got lit then bs "same"
+  else if negb (Bool.eqb got rules) then bs "finding"
+  else let dec := decisive_departures sv a x in
+       let hold := holding_conditions sv a x in
+       match dec, hold with
+       | _ :: _, _ => bs "dep:" ++ join_nums dec
+       | [], _ :: _ => bs "joint:" ++ join_nums hold
+       | [], [] => bs "unexplained"
+       end.
+
+Definition with_literal (args : list bytes) (k : spec_rules -> auth_input -> Departures.spec_extra -> bool -> bytes -> bytes) : bytes :=
+  match split_last_arg args with
+  | None => bs "badargs"
+  | Some (args', impl) =>
+      with_case args'
+        (fun so ver e al =>
+           match spec_flags_of ver, spec_rules_of ver with
+           | Some sf, Some sv =>
+               k sv (abs so sf e al) (extra_of ver e al) (bytes_eqb impl (bs "ok")) impl
+           | _, _ => bs "FAIL unknown version"
+           end)
+        (bs "badargs")
+  end.
+
+(* C07.literal_report [version; signature table; event; auth event ...; verdict] -> class (for the
+   histogram of exercised departures in the evidence) *)
+Definition run_literal_report (args : list bytes) : bytes :=
+  with_literal args (fun sv a x got _ => if negb (ai_provider_ok a) then bs "same" else literal_class sv a x got).
+
+(* C07.prop.literal: the library's verdict may differ from the literal text of the specification
+   only where one of the 13 departures applies (and then it must be the rules' verdict) *)
+Definition prop_literal (args : list bytes) : bytes :=
+  with_literal args
+    (fun sv a x got impl =>
+       if negb (ai_provider_ok a) then bs "ok" else
+       let lit := decide_spec_with all_off sv a x in
+       let rules := decide_spec_with all_on sv a x in
+       if Bool.eqb got lit then bs "ok"
+       else if Bool.eqb got rules then
+         match holding_conditions sv a x with
+         | _ :: _ => bs "ok"
+         | [] => bs "FAIL differs from the literal text although no departure applies"
+         end
+       else if rules then bs "FAIL the rules accept, the library answered " ++ impl
+       else bs "FAIL the rules reject, the library answered " ++ impl).
+
 Definition ops_C07 : list (bytes * (list bytes -> bytes)) :=
   [ (bs "C07.allowed", run_allowed); (bs "C07.allowed_nilq", run_allowed_nilq);
-    (bs "C07.prop.allowed", prop_allowed) ].
+    (bs "C07.prop.allowed", prop_allowed); (bs "C07.prop.literal", prop_literal);
+    (bs "C07.literal_report", run_literal_report) ].
